@@ -469,10 +469,14 @@ func init() {
 		}
 		return HarnessRun{Entry: "VerifC13Driver", Params: p, Covers: []string{"C13.replaced", "C13.deleted-existing", "C13.branched", "C13.kept-iterator-compared", "C13.end"}, DiffRuns: diff}
 	}
+	// concrete 4-5 entry pre-states, then N symbolic insert/delete/lookup steps in ONE transaction (OPS 131 = insert|delete|lookup), prefix lengths {0,1,2,4}
+	c13p := func(preset, n int) HarnessRun {
+		return HarnessRun{Entry: "VerifC13Driver", Params: map[string]int{"N": n, "W": 8, "CHECK": 0, "PRESET": preset, "OPS": 1 | 2 | 128, "PLSET": 1 | 2 | 4 | 16}, Covers: []string{"C13.deleted-existing", "C13.end"}, DiffRuns: 20}
+	}
 	reg(&CheckSpec{
 		ID: "C13", PkgDir: "lpm",
 		// PLSET 291 = prefix lengths {0,1,5,8}; 99203 = {0,1,7,8,9,15,16}
-		Quick:    []HarnessRun{c13(2, 8, 291, 0, 60), c13(2, 8, 291, 1, 60), c13(2, 8, -1, 0, 30)},
+		Quick:    []HarnessRun{c13(2, 8, 291, 0, 60), c13(2, 8, 291, 1, 60), c13(2, 8, -1, 0, 30), c13p(1, 2), c13p(2, 2), c13p(3, 2)},
 		Thorough: []HarnessRun{c13(2, 8, -1, 0, 60), c13(2, 8, -1, 1, 60), c13(3, 8, 291, 0, 60), c13(3, 8, 291, 1, 60), c13(2, 16, 99203, 0, 30), c13(2, 16, 99203, 1, 30)},
 		Outside: []string{"outside: keys wider than W bits (8 quick, 16 thorough; the trie logic is width-generic, width is a loop bound only), prefix lengths outside the listed PLSET in runs that restrict it, more than N operations; Lookup of a non-stored shorter-than-full key is not asserted (undefined by the statement); netip conversion helpers"},
 	})
@@ -564,10 +568,14 @@ func init() {
 	c07 := func(p map[string]int, diff int) HarnessRun {
 		return HarnessRun{Entry: "VerifC07Changes", Params: p, Covers: []string{"C07.delete-delivered", "C07.open-watch", "C07.next-with-writetxn", "C07.partial", "C07.end"}, DiffRuns: diff}
 	}
+	// with rejected compare-and-swap writes in the histories
+	c07cas := func(n int) HarnessRun {
+		return HarnessRun{Entry: "VerifC07Changes", Params: map[string]int{"N": n, "PRE": 1, "CAS": 1}, Covers: []string{"C07.rejected-cas", "C07.end"}, DiffRuns: 30}
+	}
 	reg(&CheckSpec{
 		ID: "C07", PkgDir: "statedb",
-		Quick:    []HarnessRun{c07(map[string]int{"N": 3, "PRE": 1}, 60), {Entry: "VerifKFNextUncommitted"}},
-		Thorough: []HarnessRun{c07(map[string]int{"N": 4, "PRE": 1}, 60), c07(map[string]int{"N": 3, "PRE": 2, "L": 1}, 60), {Entry: "VerifKFNextUncommitted"}},
+		Quick:    []HarnessRun{c07(map[string]int{"N": 3, "PRE": 1, "CAS": 0}, 60), c07cas(2), {Entry: "VerifKFNextUncommitted"}},
+		Thorough: []HarnessRun{c07(map[string]int{"N": 4, "PRE": 1, "CAS": 0}, 60), c07(map[string]int{"N": 3, "PRE": 2, "L": 1, "CAS": 0}, 60), c07(map[string]int{"N": 3, "PRE": 1, "CAS": 1}, 60), {Entry: "VerifKFNextUncommitted"}},
 		Known:    []KnownProbe{{ID: "KF-next-uncommitted-deletes", Entry: "VerifKFNextUncommitted"}},
 		Outside: []string{"outside: interleaving with graveyard collection and with other iterators being created/closed (one iterator, no collector runs: see C08); the Observable wrapper; finalizer-driven close; more than N steps after PRE concrete objects; keys longer than L",
 			"steps: write txn (insert/delete, commit/abort) | Next(fresh ReadTxn) fully consumed | Next(open WriteTxn with a pending write) | Next partially consumed (1 element)"},
@@ -657,10 +665,13 @@ func init() {
 	c06 := func(n, l int) HarnessRun {
 		return HarnessRun{Entry: "VerifC06Watch", Params: map[string]int{"N": n, "L": l}, Covers: []string{"C06.committed", "C06.aborted", "C06.changed-and-closed", "C06.end"}, NoNative: true}
 	}
+	c06p := func(n, l int) HarnessRun {
+		return HarnessRun{Entry: "VerifC06Watch", Params: map[string]int{"N": n, "L": l, "PRESET": 1}, Covers: []string{"C06.committed", "C06.aborted", "C06.changed-and-closed", "C06.end"}, NoNative: true}
+	}
 	reg(&CheckSpec{
 		ID: "C06", PkgDir: "statedb",
-		Quick:    []HarnessRun{c06(2, 1), c02(1)},
-		Thorough: []HarnessRun{c06(3, 1), c06(2, 2), c02(2)},
+		Quick:    []HarnessRun{c06(2, 1), c02(1), c06p(1, 2)},
+		Thorough: []HarnessRun{c06(3, 1), c06(2, 2), c02(2), c06p(2, 2)},
 		Outside: []string{"outside: channels obtained from write-transaction queries; a waiting goroutine is modelled by the sync observer (every point at which it could wake up relative to the committer's synchronisation operations); pre-state of two objects; more than N later writes; nothing is asserted about channels that close although the result did not change (allowed)"},
 	})
 }
